@@ -202,6 +202,8 @@ def _convert_elem(e, dt):
 def _py_int_to_bv(z, dt):
     """numpy conversion of a *Python int* to a sized dtype: OverflowError when it does not fit."""
     info = _np.iinfo(dt)
+    if isinstance(z, core.ZB):
+        return z.to_bv(dt)
     if z.is_concrete():
         if not (info.min <= z.v <= info.max):
             raise OverflowError('Python integer %d out of bounds for %s' % (z.v, dt))
